@@ -145,7 +145,59 @@ func runLinkedMapOrder[K comparable](c *core.Ctx, d *Dom[K]) {
 	if len(d.Alpha) >= 200 {
 		steps = 1200
 	}
+	_, nanKeys := any(*new(K)).(float64)
 	for s := 0; s < steps; s++ {
+		if !nanKeys && len(d.Alpha) < 200 && r.Intn(60) == 0 {
+			// the history continues on a map the LIBRARY derived from this one:
+			// Map under a key function that sends pairs of alphabet keys to one
+			// key (colliding keys resolve as repeated Put would: the first
+			// keeps its place, the last value wins), or Select
+			idx := func(k K) int {
+				for i, a := range d.Alpha {
+					if a == k {
+						return i
+					}
+				}
+				return -1
+			}
+			if r.Bool() {
+				f := func(k K) K {
+					if i := idx(k); i >= 0 {
+						return d.Alpha[i/2*2]
+					}
+					return k
+				}
+				c.Begin(name, "Map", "alphabet keys collapse in pairs; the history continues on the result")
+				m = m.Map(func(k K, v int) (K, int) { return f(k), v })
+				var no []K
+				nc := map[K]int{}
+				for _, k := range order {
+					k2 := f(k)
+					if _, ok := nc[k2]; !ok {
+						no = append(no, k2)
+					}
+					nc[k2] = cur[k]
+				}
+				order, cur = no, nc
+			} else {
+				keep := func(k K) bool { return idx(k)%3 != 1 }
+				c.Begin(name, "Select", "a third of the alphabet rejected; the history continues on the result")
+				m = m.Select(func(k K, v int) bool { return keep(k) })
+				var no []K
+				for _, k := range order {
+					if keep(k) {
+						no = append(no, k)
+					} else {
+						delete(cur, k)
+					}
+				}
+				order = no
+			}
+			c.Count("obs:derived-container", 1)
+			c.ObserveNow()
+			check()
+			continue
+		}
 		if r.Intn(4) == 0 {
 			// reads are part of the history: an access never moves a key
 			k := d.AnyVal(r)
